@@ -29,6 +29,8 @@ Log(f, a, isFault) == hist' = Append(hist, [f |-> f, a |-> a, fault |-> isFault]
 DropPid == ~t.nopid /\ t' = [t EXCEPT !.nopid = TRUE] /\ Log("DropPid", <<>>, TRUE)
 DuplicatePid == \E i, j \in 1..N : i # j /\ t.rows[j].pid # t.rows[i].pid /\ t' = SetCell(j, "pid", t.rows[i].pid) /\ Log("DuplicatePid", <<i, j>>, TRUE)
 DanglingPointer == \E i \in 1..N, c \in PtrCols : 999 \notin Pids(t) /\ t' = SetCell(i, c, 999) /\ Log("DanglingPointer", <<i, c>>, TRUE)
+\* "nobody" is exactly -1: any other negative value (a survey's missing code) points to a person that is not in the data
+NegativePointer == \E i \in 1..N, c \in PtrCols, v \in {-2} : t.rows[i][c] # v /\ v \notin Pids(t) /\ t' = SetCell(i, c, v) /\ Log("NegativePointer", <<i, c, v>>, TRUE)
 SelfPointer == \E i \in 1..N, c \in PtrCols : t.rows[i][c] # t.rows[i].pid /\ t' = SetCell(i, c, t.rows[i].pid) /\ Log("SelfPointer", <<i, c>>, TRUE)
 VaryHHInput == \E i \in 1..N : (\E j \in 1..N : j # i /\ t.rows[j].hh = t.rows[i].hh /\ t.rows[j].hv = t.rows[i].hv)
                  /\ \E d \in {1, 3} : t' = SetCell(i, "hv", t.rows[i].hv + d) /\ Log("VaryHHInput", <<i, d>>, TRUE)
@@ -44,7 +46,7 @@ LosslessDtype == \E c \in DCols : t.dtype[c] = "ok" /\ c \notin t.dropped /\
                    t' = [t EXCEPT !.dtype[c] = k] /\ Log("LosslessDtype", <<c, k>>, FALSE)
 G == Faults < MaxFaults            \* guard of every fault action (top-level disjuncts so that TLC reports coverage per fault class)
 B == Len(hist) - Faults < 1 /\ Len(hist) < MaxFaults + 1
-Next == (G /\ DropPid) \/ (G /\ DuplicatePid) \/ (G /\ DanglingPointer) \/ (G /\ SelfPointer) \/ (G /\ VaryHHInput)
+Next == (G /\ DropPid) \/ (G /\ DuplicatePid) \/ (G /\ DanglingPointer) \/ (G /\ NegativePointer) \/ (G /\ SelfPointer) \/ (G /\ VaryHHInput)
         \/ (G /\ ContradictJoint) \/ (G /\ DropRequired) \/ (G /\ DuplicateColumn) \/ (G /\ LossyDtype) \/ (B /\ LosslessDtype)
 Spec == Init /\ [][Next]_vars
 \* theorems
